@@ -92,6 +92,17 @@ func VerifHarness_C13_channel_confirmation() {
 	vRunSpawn(0) // the ChannelBind goroutine, arbitrary server reactions
 	confirmed := vConfirmed(fc, peer, b.number)
 	vAssert(b.ok() == confirmed, "C13.binding_usable_iff_server_confirmed_that_pair")
+	// a second write may start another ChannelBind attempt (after a lost one); run it too
+	if !c.isClosed() {
+		_, _ = c.WriteTo(payload, peer)
+		for i := 1; i < vSpawnCount(); i++ {
+			if !vSpawnStarted(i) {
+				vRunSpawn(i)
+			}
+		}
+		confirmed = vConfirmed(fc, peer, b.number)
+		vAssert(b.ok() == confirmed, "C13.binding_usable_iff_server_confirmed_that_pair")
+	}
 	before := len(fc.events)
 	closedBy400 := c.isClosed()
 	_, err2 := c.WriteTo(payload, peer)
